@@ -28,7 +28,8 @@ def inv_trigger(S_, t):
     h = S_.new
     loc = h.f(t, "Trigger.__location")
     acts = h.f(t, "Trigger.__actions")
-    return And(Val.is_VRef(loc), Val.r(loc) > 0, Val.r(loc) < ALLOC_BASE,
+    bound = S_.I.st.ghost.get("_pre_bound") or S_.I.st.next_id       # "exists already" (see SpecCtx.pre)
+    return And(Val.is_VRef(loc), Val.r(loc) > 0, Val.r(loc) < bound,
                Or(And(h.typeof(loc) == S_.cid("LineLocation"), CLASS_INV("LineLocation")(S_, loc)),
                   And(h.typeof(loc) == S_.cid("FunctionLocation"), CLASS_INV("FunctionLocation")(S_, loc))),
                S_.pre(acts, "list"), h.llen(acts) >= 0,
